@@ -53,7 +53,7 @@ CLAIMED = {
     "C04": (
         "proof",
         "Coq proofs (escapeHtml safety for every string by induction; chunk discipline of the renderer model for every html-free token list) + differential correspondence of the renderer + strict HTML grammar checker on implementation output",
-        "Theorems: for EVERY string escapeHtml yields no < > double-quote and only its own four entities, and the four replace passes of the source compute exactly that function (C04_escape_safe, C04_escape_as_written); for EVERY token list without html_block/html_inline tokens and without highlight, the renderer emits only fixed renderer literals, '<tag'/'</tag' of token tags, and escaped data - no raw chunk (C04_only_renderer_markup, C04_attrs_escaped). Parser side (no html tokens when options.html is falsy; tags from the fixed vocabulary; balanced pairs) is not yet a theorem: it is decided on the implementation each run by a strict HTML checker (nesting, tag/attribute vocabulary, escaping in text and attribute values) over html-off configurations (all three option routes, html rules force-enabled) with metacharacters placed in every data slot.",
+        "Theorems: for EVERY string escapeHtml yields no < > double-quote and only its own four entities, and the four replace passes of the source compute exactly that function (C04_escape_safe, C04_escape_as_written); for EVERY token list without html_block/html_inline tokens and without highlight, the renderer emits only fixed renderer literals, '<tag'/'</tag' of token tags, and escaped data - no raw chunk (C04_only_renderer_markup, C04_attrs_escaped). Parser side, block half PROVED for every source and configuration: the tag of every token the block parser appends is one of 19 fixed names or empty, html_block tokens exist only when options.html is on (C04_block_tags_from_vocabulary), and the block stream is balanced (C02_block_stream_balanced). Inline half (html_inline only with options.html, inline tags, balanced inline pairs) is not yet a theorem: the parser side is also decided on the implementation each run by a strict HTML checker (nesting, tag/attribute vocabulary, escaping in text and attribute values) over html-off configurations (all three option routes, html rules force-enabled) with metacharacters placed in every data slot.",
         "Trusted: Coq kernel; renderer model tied by sampled correspondence; parser-side half by exploration only (partial).",
         "DESIGN.md §3 C04",
     ),
@@ -116,7 +116,7 @@ CLAIMED = {
     "C10": (
         "proof",
         "Coq proofs of inertness on the rule models (table, strikethrough) + whole-pipeline correspondence under random rule subsets + switch-effect oracles on the implementation",
-        "Theorems for ALL states: the table rule returns False without touching the state on any source that contains no '|' (C10_table_inert); the strikethrough tokenizer and post-processor do nothing on input without '~' (C10_strikethrough_inert, C10_strikethrough_post_inert). Decided on the implementation each run: token kinds vs the producer map of the enabled rules under random rule subsets of every preset; table / strikethrough on vs off on inputs without their trigger (incl. paragraph + delimiter-row-like lines); inline_definitions / store_labels on vs off (tokens modulo definition tokens and label meta, env, HTML modulo line breaks after tags); each option set by constructor, item assignment and (for the nine core options) attribute assignment.",
+        "Theorems: for EVERY source and configuration every token the block parser appends has the (type, tag) of the vocabulary of a rule that is in the chain - no table tokens without the table rule, no headings without heading/lheading, no html_block without its rule and options.html (C10_block_kinds_need_producer; its side condition 'terminator chains are sub-lists of the main chain' holds for every configuration compiled from a Ruler state, C10_ruler_chains). For ALL states: the table rule returns False without touching the state on any source that contains no '|' (C10_table_inert); the strikethrough tokenizer and post-processor do nothing on input without '~' (C10_strikethrough_inert, C10_strikethrough_post_inert). Decided on the implementation each run: token kinds (inline kinds included) vs the producer map of the enabled rules under random rule subsets of every preset; table / strikethrough on vs off on inputs without their trigger (incl. paragraph + delimiter-row-like lines); inline_definitions / store_labels on vs off (tokens modulo definition tokens and label meta, env, HTML modulo line breaks after tags); each option set by constructor, item assignment and (for the nine core options) attribute assignment.",
         "Trusted: Coq kernel; models tied by sampled correspondence under random rule subsets; whole-chain statements (kinds need producer, option routes) by exploration (partial).",
         "DESIGN.md §3 C10",
     ),
